@@ -106,3 +106,7 @@
 (declare-fun BindsReceiverEarly (Iface) Bool)
 (declare-fun cursorReplace (Ref Iface World) World)
 (declare-fun cursorInsert (Ref Iface World) World)
+(declare-fun funcType (Ref) Iface)
+(declare-fun sigTParams (Ref) Ref)
+(declare-fun tplLen (Ref) Int)
+(declare-fun sigParams (Ref) Ref) (declare-fun sigResults (Ref) Ref) (declare-fun sigVariadic (Ref) Bool) (declare-fun sigRecv (Ref) Ref)
